@@ -136,6 +136,12 @@ pub enum Step {
     /// Publish the reply to the most recent inbound message that offered one
     /// (`reply_owned` with the given capacities, or the borrowed `reply`).
     Drop {},
+    /// programs only: end the connection (if any) and connect again; the broker keeps the session and
+    /// answers with these CONNACK properties
+    Reconnect {
+        #[serde(default)]
+        connack: Vec<Prop>,
+    },
     // ---- environment decisions -------------------------------------------------------------
     W {
         acc: usize,
